@@ -393,7 +393,10 @@ func (b *Binlog) RunPollLoop() error {
 				continue
 			} else if err != nil {
 				b.logger.Error("livesql: failed to parse rows event", "error", err)
-				continue
+				// We do not know what changed, so every live query on the table has
+				// to be invalidated (see dbResource.shouldInvalidate); dropping the
+				// event would leave them stale.
+				u = &update{table: string(inner.Table.Table), err: err}
 			}
 
 			b.delayMu.Lock()
